@@ -18,6 +18,33 @@ CHECKS = {
             "floors 1e-3/3e-4. Rotations are steered off known finding D1 by construction; rank-deficient augmented "
             "systems are known finding D3 (counted, excluded). Under-determined tissues are skipped and counted.",
             "DESIGN.md 4/C01"),
+    "C03": ("property-based testing (Hypothesis): manufactured time series whose junction displacements are dt x the "
+            "resultant of drawn tensions; reported tensions vs the drawn ones",
+            "Generated-input exploration with an exact answer: arbitrary positive tension vectors (not an equilibrium) "
+            "define the junction motion of the inferred frame analytically; frames are renumbered independently, time "
+            "stamps are arbitrary and unequal, inference at first/middle/last (backward difference) frame, three "
+            "back-ends, two fits; tolerance derived from the 3-decimal rounding of the velocity term and the "
+            "admissible coefficient noise.",
+            "Trusted: analytic tangents; tracking inside C12's bounds is asserted first (a tracking failure is "
+            "reported under C12). D1 avoided by construction. Ill-conditioned instances skipped and counted.",
+            "DESIGN.md 4/C03"),
+    "C12": ("property-based testing (Hypothesis): generated displacement fields inside / outside the stated bounds, "
+            "ground-truth successor map",
+            "Generated-input exploration: series of 2..6 frames with random / affine / drift+vortex displacement "
+            "fields scaled to a drawn fraction of the admissible bound, independent renumbering per frame, partial "
+            "user pairings, cm on/off: keys/values are interface end points, targets pairwise distinct, user pairs "
+            "honoured (always); true successor and forward/backward round trip (inside the bounds).",
+            "Trusted: the premises are evaluated exactly as the statement words them (spacing, 8% extent, 10% shape) "
+            "on the coordinates TimeSeries sees; a 3% safety margin separates 'inside' from 'outside'.",
+            "DESIGN.md 4/C12"),
+    "C13": ("property-based testing (Hypothesis): finite differences from ground-truth positions and time stamps",
+            "Generated-input exploration: calculate_velocity for every junction and frame (forward, backward at the "
+            "last frame, untracked junction => zero), placement of velocity components in the right-hand side rows "
+            "of the junction's own equations, static mode all zero, adimensional division by the mean junction speed "
+            "and velocity_normalization, system velocity per frame.",
+            "Trusted: ground-truth successor from the generating model. Frames whose mean junction speed is exactly "
+            "zero are excluded from the adimensional clause (0/0 undefined).",
+            "DESIGN.md 4/C13"),
     "C05": ("property-based testing (Hypothesis) with a KKT optimality certificate; hook record cross-checked",
             "Generated-input exploration: for noisy / equilibrium / fixture systems, square (inversion path) and "
             "rectangular (fallback), static and velocity right-hand sides, three back-ends, the reported tensions "
@@ -47,6 +74,15 @@ CHECKS = {
             "Trusted: meshcheck.py (the invariant). SegmentationArtifactException ends a sequence (documented "
             "rejection). Chained contractions (D21) are avoided by construction.",
             "DESIGN.md 4/C09"),
+    "C19": ("property-based testing (Hypothesis) against the scipy Voronoi diagram of the drawn centres",
+            "Generated-input exploration: random, jittered-lattice (jitter 0..0.3), exactly square and exactly "
+            "hexagonal centre sets of 6..300 points, with/without helper ring, tight to infinite max_distance: one "
+            "cell per bounded region below the cut-off, vertex cycle = rounded corners up to orientation, every vertex "
+            "equidistant from its three nearest centres, ridge corners shared as the same Vertex objects with exactly "
+            "one mesh edge, common rotational sense, mesh consistency.",
+            "Trusted: scipy.spatial.Voronoi as the definition of the diagram; corners coinciding after rounding are "
+            "one corner; cases with a region diameter on the cut-off are skipped.",
+            "DESIGN.md 4/C19"),
     "C20": ("property-based testing (Hypothesis) with an exact rational shoelace oracle; all cyclic shifts enumerated",
             "Generated-input exploration: star-shaped / convex polygons with 3..80 vertices, both orientations and "
             "every cyclic shift: area vs exact Fraction shoelace, sign convention, perimeter, navigation laws, scaling "
